@@ -74,6 +74,10 @@ type Walk struct {
 	Loop func(w *Walk, st PState, loop ast.Stmt, body func(PState) []LoopOut) (out []PState, handled bool)
 	// Exit is called for every way out of the function, after deferred calls were replayed.
 	Exit func(w *Walk, st PState, kind flowKind, at ast.Node)
+	// Visit is called with every top-level expression or simple statement just before it is
+	// evaluated (conditions, assignments, call statements, range operands, return results ...),
+	// so that a rule can inspect reads and writes at that program point.
+	Visit func(w *Walk, st PState, n ast.Node)
 	// InDefer is true while deferred calls are being replayed.
 	InDefer bool
 
@@ -262,6 +266,17 @@ func (w *Walk) expr(states []*wstate, e ast.Node) []*wstate {
 	return states
 }
 
+func (w *Walk) visit(states []*wstate, n ast.Node) {
+	if w.Visit == nil || n == nil {
+		return
+	}
+	for _, s := range states {
+		if s.flow == fNormal {
+			w.Visit(w, s.U, n)
+		}
+	}
+}
+
 func (w *Walk) exprs(states []*wstate, es []ast.Expr) []*wstate {
 	for _, e := range es {
 		states = w.expr(states, e)
@@ -352,8 +367,10 @@ func (w *Walk) stmt(st ast.Stmt, states []*wstate) []*wstate {
 	case *ast.BlockStmt:
 		return w.block(x.List, states)
 	case *ast.ExprStmt:
+		w.visit(states, x)
 		return w.expr(states, x.X)
 	case *ast.AssignStmt:
+		w.visit(states, x)
 		states = w.exprs(states, x.Rhs)
 		for _, l := range x.Lhs {
 			if _, ok := l.(*ast.Ident); !ok {
@@ -367,12 +384,14 @@ func (w *Walk) stmt(st ast.Stmt, states []*wstate) []*wstate {
 		}
 		return append(out, o...)
 	case *ast.IncDecStmt:
+		w.visit(states, x)
 		var out []*wstate
 		for _, s := range states {
 			out = append(out, w.event(s, x)...)
 		}
 		return out
 	case *ast.DeclStmt:
+		w.visit(states, x)
 		if gd, ok := x.Decl.(*ast.GenDecl); ok {
 			for _, sp := range gd.Specs {
 				if vs, ok := sp.(*ast.ValueSpec); ok {
@@ -388,6 +407,7 @@ func (w *Walk) stmt(st ast.Stmt, states []*wstate) []*wstate {
 		}
 		return states
 	case *ast.SendStmt:
+		w.visit(states, x)
 		states = w.expr(states, x.Chan)
 		states = w.expr(states, x.Value)
 		n, o := splitFlow(states)
@@ -397,6 +417,7 @@ func (w *Walk) stmt(st ast.Stmt, states []*wstate) []*wstate {
 		}
 		return append(out, o...)
 	case *ast.GoStmt:
+		w.visit(states, x)
 		for _, a := range x.Call.Args {
 			states = w.expr(states, a)
 		}
@@ -406,6 +427,7 @@ func (w *Walk) stmt(st ast.Stmt, states []*wstate) []*wstate {
 		}
 		return out
 	case *ast.DeferStmt:
+		w.visit(states, x)
 		for _, a := range x.Call.Args {
 			states = w.expr(states, a)
 		}
@@ -420,6 +442,7 @@ func (w *Walk) stmt(st ast.Stmt, states []*wstate) []*wstate {
 		}
 		return out
 	case *ast.ReturnStmt:
+		w.visit(states, x)
 		states = w.exprs(states, x.Results)
 		n, o := splitFlow(states)
 		var out []*wstate
@@ -455,6 +478,7 @@ func (w *Walk) stmt(st ast.Stmt, states []*wstate) []*wstate {
 	case *ast.IfStmt:
 		states = w.stmt(x.Init, states)
 		n, o := splitFlow(states)
+		w.visit(n, x.Cond)
 		n = w.expr(n, x.Cond)
 		n2, o2 := splitFlow(n)
 		o = append(o, o2...)
@@ -513,6 +537,7 @@ func (w *Walk) switchStmt(x *ast.SwitchStmt, states []*wstate, label string) []*
 	states = w.stmt(x.Init, states)
 	n, o := splitFlow(states)
 	if x.Tag != nil {
+		w.visit(n, x.Tag)
 		n = w.expr(n, x.Tag)
 	}
 	var out []*wstate
@@ -526,6 +551,9 @@ func (w *Walk) switchStmt(x *ast.SwitchStmt, states []*wstate, label string) []*
 			continue
 		}
 		var enter []*wstate
+		for _, ce := range cc.List {
+			w.visit(remaining, ce)
+		}
 		if x.Tag == nil && len(cc.List) == 1 {
 			// switch { case cond: } is an if-chain
 			rem := w.expr(remaining, cc.List[0])
@@ -634,6 +662,7 @@ func (w *Walk) loop(x ast.Stmt, states []*wstate, label string) []*wstate {
 		init, cond, post, body = l.Init, l.Cond, l.Post, l.Body
 	case *ast.RangeStmt:
 		body = l.Body
+		w.visit(states, l.X)
 		states = w.expr(states, l.X)
 	}
 	states = w.stmt(init, states)
@@ -642,6 +671,7 @@ func (w *Walk) loop(x ast.Stmt, states []*wstate, label string) []*wstate {
 	// one traversal of the body from a given set of head states
 	once := func(head []*wstate) (fall, brk, other []*wstate) {
 		if cond != nil {
+			w.visit(head, cond)
 			head = w.expr(head, cond)
 			hn, ho := splitFlow(head)
 			other = append(other, ho...)
